@@ -361,3 +361,24 @@ package core
 //@   loop 0:
 //@     invariant !isnil(l.reader) && lsame(l, old(l)) && rdpos(l.reader) > old(rdpos(l.reader))
 //@     decreases rdlen(l.reader) - rdpos(l.reader)
+
+// C04: a traditional xref entry "nnnnnnnnnn ggggg n|f": n = in use at that byte offset, f = free (an error on lookup);
+// the fields are the fixed columns 0-9, 10-15 and 16-17; any other flag is an error
+//@ func (*XRefParser) parseEntry results (entry, err)
+//@   property C04, C02
+//@   ensures too_short_is_error: len(line) < 18 ==> err
+//@   ensures in_use: !err && strings.TrimSpace(line[16:18]) == "n" ==> entry.InUse && entry.Type == XRefEntryUncompressed
+//@   ensures free: !err && strings.TrimSpace(line[16:18]) == "f" ==> !entry.InUse && entry.Type == XRefEntryFree
+//@   ensures other_flag_is_error: len(line) >= 18 && strings.TrimSpace(line[16:18]) != "n" && strings.TrimSpace(line[16:18]) != "f" ==> err
+//@   ensures fields: !err ==> entry.Offset == strconv.ParseInt(strings.TrimSpace(line[0:10]), 10, 64) && entry.Generation == strconv.Atoi(strings.TrimSpace(line[10:16]))
+
+// subsections "first count" number their entries first, first+1, ...; every entry is stored under its own number
+//@ func (*XRefParser) parseTraditionalXRef results (table, err)
+//@   property C04, C02
+//@   flags nosafety
+//@   callsite Set(n, e) requires n == firstObjNum + i && e == entry
+//@   loop 0:
+//@     decreases screm(scanner)
+//@   loop 1:
+//@     invariant 0 <= i && screm(scanner) <= entry(screm(scanner))
+//@     decreases count - i
